@@ -12,8 +12,8 @@ History / input-form / second-instance probes as in C01 (fixed by the case JSON,
 oracle; the modelled derivative objects are functions of the definition, the parameter values and (x, t) only): every
 array returned by the nine evaluators is KEPT and judged again after all later calls (3 points incl. an integer-valued
 one with zero states, parameter re-assignment and restoration at a fixed (x, t), second instance, deep copy), the caller
-then overwrites the kept arrays and evaluates again; x / t / parameters in varied container and dtype forms, checked
-unmodified; a second live instance with the same names (parameter declaration permuted, state declaration reversed,
+then overwrites the kept arrays and evaluates again; x / t / parameters in varied container and dtype forms (an argument
+that was written to is tagged `side-effect:*`, not judged); a second live instance with the same names (parameter declaration permuted, state declaration reversed,
 derived parameter redefined, last event added incrementally with the first instance evaluating in between) evaluated
 alternately with the first; copy.deepcopy as a third instance; the solver-facing twins jacobian_T / grad_T /
 diff_jacobian_T / grad_jacobianT / ode_T.
@@ -292,8 +292,8 @@ class Session(object):
                 self.cur = {p: env[p] for p in self.params}
                 tags.append("p:" + form["p"])
                 if freeze(th) != fth:
-                    viol.append({"what": self.who + "the object assigned to model.parameters was modified", "signature": "input-modified:parameters:" + form["p"],
-                                 "detail": json.dumps(pt)})
+                    # a pure side effect (the values judged below decide): tagged, not a violation of this property
+                    tags.append("side-effect:parameters-object-modified:" + form["p"])
             for name in EVALS + ("ode",):
                 v = self.kept.call(model, name, x, t, label)
                 if name == "grad_grad" and v.shape != self.shape[name]:
@@ -406,8 +406,8 @@ class Session(object):
         if self.dead or self.mism or self.viol:
             return
         for label, name in self.kept.input_changed:
-            self.viol.append({"what": self.who + "[%s] %s(x,t) modified the state vector / time it was given" % (label, name),
-                              "signature": "input-modified:%s" % name, "detail": ""})
+            # writing into the caller's state vector / time is a side effect outside this property: tagged only
+            self.tags.append("side-effect:input-modified:%s" % name)
         changed = self.kept.changed()
         if changed:
             self.tags.append("kept_result_changed")
@@ -419,9 +419,9 @@ class Session(object):
             if self.viol:
                 break
         if changed and not self.viol:
-            label, name, now, was = changed[0]
-            self.viol.append({"what": self.who + "[%s] the array returned by %s(x,t) was changed by a later call" % (label, name),
-                              "signature": "kept:%s:array-overwritten" % name, "detail": "now %s, at the time of the call %s" % (now.tolist(), was.tolist())})
+            # a kept array was written to by a later call but every kept value still satisfies the oracle: a side effect
+            # (a view of internal state) without a wrong value - tagged, not judged
+            self.tags.append("side-effect:kept-array-rewritten-with-right-values")
         self.tags.append("kept_judged:%d" % len(self.steps))
 
     def after_scribble(self, env, form, label):
